@@ -19,4 +19,4 @@ rm -f $PKGDIR/zz_seed_demo_test.go
 if [ -n "$TESTS" ]; then echo "== existing tests with patch: $TESTS"; go test -vet=off -count=1 $TESTS 2>&1 | tail -4 | tee $OUT/existing_tests_with.txt; fi
 git checkout -q -- .
 echo "== ./check $ID against /repo with the patch"
-cd /repo && git apply $OUT/patch.diff && (cd /verif && ./check $ID --tier quick 2>&1 | grep -v "^  obligation" | tail -8 | tee $OUT/check_with_patch.txt); cd /repo && git checkout -- . && git status --short | head -3
+cd /repo && git apply $OUT/patch.diff && (cd /verif && GOVC_EVIDENCE_DIR=$OUT/evidence_with_patch ./check $ID --tier quick 2>&1 | grep -v "^  obligation" | tail -8 | tee $OUT/check_with_patch.txt); cd /repo && git checkout -- . && git status --short | head -3
